@@ -378,11 +378,16 @@ func (w *c01world) exec(op sim.Op) (rec c01rec, ok bool) {
 func (w *c01world) fp(clause, op string, other int) string {
 	if other >= 0 && other < pmMaxSub && w.ev[other] != "" {
 		ev := w.ev[other]
+		label := w.label
 		switch ev {
 		case "alloc", "reask", "renew", "set":
 			ev = "active" // nothing abnormal happened to the holder
+		default:
+			// the holder's own history explains the context; whether the store
+			// echoes local writes is incidental then
+			label = strings.TrimSuffix(label, "+echo")
 		}
-		return fmt.Sprintf("%s/%s/holder-%s", clause, w.label, ev)
+		return fmt.Sprintf("%s/%s/holder-%s", clause, label, ev)
 	}
 	return fmt.Sprintf("%s/%s/%s", clause, w.label, op)
 }
@@ -402,14 +407,25 @@ func (w *c01world) judge(rec c01rec) {
 	if !ok {
 		c.Fail(clause, w.fp(clause, pmKindNames[in.Kind], other), "%s: %s — violates %q against the holdings %s (subscriber %d involved, its last event: %s)",
 			w.label, rec.desc, clause, w.describe(), other, w.evOf(other))
-		// keep the model in step with what the pool answered so later checks stay meaningful
-		if in.Kind == pmAlloc && out.OK && out.Val >= 0 {
-			if other >= 0 && other != in.Sub {
-				w.st.Hold[other] = 0
+		// bring the model back in step with what the pool answered, so that only new
+		// discrepancies are reported from here on (not consequences of this one)
+		if (in.Kind == pmAlloc || in.Kind == pmLook) && out.OK && out.Val >= 0 && in.Sub >= 0 && in.Sub < pmMaxSub {
+			for t := 0; t < pmMaxSub; t++ {
+				if t != in.Sub && int(w.st.Hold[t]) == out.Val+1 {
+					w.st.Hold[t] = 0
+					w.ev[t] = ""
+				}
 			}
 			w.st.Hold[in.Sub] = int16(out.Val + 1)
-			w.st.Last[in.Sub] = w.st.Epoch
-			w.ev[in.Sub] = "alloc"
+			if w.ev[in.Sub] == "" {
+				w.ev[in.Sub] = "alloc"
+			}
+			if in.Kind == pmAlloc || !w.cf.live(&w.st, in.Sub) {
+				w.st.Last[in.Sub] = w.st.Epoch
+			}
+			if in.Kind == pmAlloc {
+				w.ev[in.Sub] = "alloc"
+			}
 		}
 		return
 	}
@@ -569,7 +585,7 @@ func c01Gen(r *sim.Rand, tier string) *sim.Case {
 		}
 		return 0
 	}
-	faultsOn := caps.Faults && r.P(35)
+	faultsOn := caps.Faults && r.P(60)
 	for i := 0; i < n; i++ {
 		cl := int64(0)
 		if conc > 1 {
@@ -578,7 +594,7 @@ func c01Gen(r *sim.Rand, tier string) *sim.Case {
 		s := int64(r.N(nsub))
 		v := int64(r.N(64))
 		switch r.Weighted(30, 14, b(caps.RelByValue, 4), b(caps.Lease, 8), b(caps.Lookup, 8), b(caps.LookupVal, 3), b(caps.Specific, 4), b(caps.Set, 3),
-			b(caps.Lease, 11), b(caps.Tick && conc <= 1, 3), b(caps.Reload && conc <= 1, 4), b(conc <= 1, 5), b(faultsOn, 5)) {
+			b(caps.Lease, 11), b(caps.Tick && conc <= 1, 3), b(caps.Reload && conc <= 1, 4), b(conc <= 1, 5), b(faultsOn, 8)) {
 		case 0:
 			cs.Ops = append(cs.Ops, sim.Op{K: "alloc", A: []int64{cl, s}})
 		case 1:
@@ -825,7 +841,8 @@ func c01Concurrent(w *c01world) {
 		for _, rec := range hist {
 			fmt.Fprintf(&b, "\n    client%d [%d,%d] %s", rec.client, rec.call, rec.ret, rec.desc)
 		}
-		c.Fail("linearizability", fmt.Sprintf("linearizability/%s/%s-%s", w.label, clause, kind),
+		_ = kind
+		c.Fail("linearizability", fmt.Sprintf("linearizability/%s/%s", w.label, clause),
 			"%s: the history of %d concurrent operations has no sequential explanation under the allocation specification (first rejected in return order: %s):%s", w.label, len(hist), desc, b.String())
 	default:
 		c.S.Probe("porcupine_ok")
@@ -846,8 +863,8 @@ func init() {
 		Stub: []string{"allocator.Store / nexus.Store (in-memory key-value store: sorted/reversed/tape-ordered Query, write failures at a chosen call index, watch echo of local writes none/FIFO/unordered)",
 			"AllocationStore wrapper that fails SaveAllocation/RemoveAllocation at a chosen call", "persistence medium of marshal/unmarshal reloads (a byte slice)"},
 		Rule: "cases: one pool variant x geometry (IPv4 /24../30, IPv6 /64 /56 /128 units, gateway/reserved positions) x 2-6 subscribers x 5-40 allocate/specific/renew/release/lookup/epoch/tick/reload/sweep ops, sequential (model checked step by step) or 2-4 concurrent client tasks (porcupine); non-trivial = >=3 completed operations and (a fault fired or >2 context switches or a preemption); distinct = distinct (case hash, schedule fingerprint)",
-		QuickRuns:    6000,
-		ThoroughRuns: 1500000,
+		QuickRuns:    20000,
+		ThoroughRuns: 2000000,
 		Assumptions: []string{"a failed (error-returning) allocate/renew does not end an existing holding; a release does, whatever it returns",
 			"a lease is live while (current epoch - epoch of last allocate/renew) <= configured grace", "usable units are computed from the configuration as documented by each pool (network/broadcast/gateway/reserved exclusions)",
 			"store watch callbacks for local writes are delivered asynchronously (as all in-repo Store implementations do), FIFO unless the variant label says unordered"},
